@@ -405,6 +405,8 @@ class Bench:
         tol = {}
         status = 'must_accept'
         worst = None
+        moved_log = []
+        relerr_max = F(0)
         fresh_src = self.is_fresh(s)
         for k, (cs, cd) in enumerate(pairs):
             vs, vd = get('s', cs), get('d', cd)
@@ -435,6 +437,8 @@ class Bench:
             ns, nd = vs.copy(), vd.copy()
             ts = tol.setdefault(('s', cs), {})
             td = tol.setdefault(('d', cd), {})
+            moved_log.append({n: a * ratio for n, a in vs.contents.items()})
+            relerr_max = max(relerr_max, relerr)
             for n, a in vs.contents.items():
                 moved = a * ratio
                 ns.contents[n] = a - moved
@@ -457,7 +461,7 @@ class Bench:
             if same and cs is not None and cd is not None:
                 pass
         return {'status': status, 'ms': ms, 'md': md, 'pairs': pairs, 'tol': tol, 'n_pairs': len(pairs),
-                'unit': unit, 'value': value}
+                'unit': unit, 'value': value, 'moved': moved_log, 'relerr_max': relerr_max}
 
     def ev_transfer(self, ev):
         rep, W = self.rep, self.world
